@@ -138,6 +138,14 @@ func genInput(t *sim.Tape, allowed []Surface, st *sim.Stats) *Input {
 				in.Marks = append(in.Marks, i+1)
 			}
 		}
+		for off := 0; len(in.Marks) < 60; {
+			i := bytes.Index(in.Data[off:], []byte("%%"))
+			if i < 0 {
+				break
+			}
+			in.Marks = append(in.Marks, off+i+1, off+i+2) // inside %% / %%+ / %!
+			off += i + 2
+		}
 		if i := bytes.Index(in.Data, []byte("readstring")); i >= 0 {
 			in.Marks = append(in.Marks, i+10, i+11)
 		}
